@@ -1001,7 +1001,14 @@ impl<'a> G<'a> {
         let n = self.r.urange(1, 4);
         for i in 0..n {
             if self.r.chance(25) {
-                let x = self.r.below(0x200) as u16;
+                // the location counter moves; with `edges` sometimes to the very top of the address
+                // space, so that the data that follows crosses 0xFFFFF and wraps to 0
+                let x = if self.cfg.feat.edges && self.r.chance(50) {
+                    self.tag("data_at_top_of_memory");
+                    *self.r.pick(&[0xFFFFu16, 0xFFFE, 0xFFF0, 0xF000])
+                } else {
+                    self.r.below(0x200) as u16
+                };
                 let v = self.num16(x);
                 self.raw(&format!("set {}", v));
             }
@@ -1011,11 +1018,11 @@ impl<'a> G<'a> {
             let (txt, word) = match self.r.below(7) {
                 0 => (format!("db {}", self.imm8()), false),
                 1 => (format!("dw {}", self.imm16()), true),
-                2 => (format!("db [{}]", self.r.below(20)), false),
-                3 => (format!("dw [{}, {}]", self.imm16(), self.r.below(8)), true),
+                2 => (format!("db [{}]", self.r.below(40)), false),
+                3 => (format!("dw [{}, {}]", self.imm16(), self.r.below(20)), true),
                 4 => (format!("db \"{}\"", self.r.pick(&["Hello World", "a", "", "x y z!", "0123456789abcdef"])), false),
                 5 => (format!("dw \"{}\"", self.r.pick(&["hi", "wide"])), true),
-                _ => (format!("db [{}, {}]", self.imm8(), self.r.below(20)), false),
+                _ => (format!("db [{}, {}]", self.imm8(), self.r.below(40)), false),
             };
             self.raw(&format!("{}{}", pre, txt));
             if labelled {
